@@ -32,6 +32,8 @@ type Req struct {
 	Types   []json.RawMessage `json:"types"`
 	GraceMs int               `json:"grace_ms"`
 	Dump    bool              `json:"dump"`
+	Envs    [][]json.RawMessage `json:"envs"`   // eqseq: several sets of definitions
+	Rounds  int               `json:"rounds"`
 	Order   []string          `json:"order"` // modes: the order in which the order queries are asked first ("down:a:b" / "up:a:b")
 }
 
@@ -216,6 +218,59 @@ func handle(rq Req) (resp map[string]interface{}) {
 			rs = append(rs, types.EqualType(build(q[0]), build(q[1]), env))
 		}
 		resp["results"] = rs
+	case "eqseq":
+		// history independence of EqualType: the same queries are asked under two sets of definitions in alternation, many times, each time with
+		// freshly built environments and a collection in between (so that a new environment may land where a dead one was); every DISTINCT
+		// result vector observed for either set is reported
+		var sets [][]types.SessionTypeDefinition
+		for _, raw := range rq.Envs {
+			d := buildDefs(raw)
+			for i := range d {
+				d[i].Modality = d[i].SessionType.Modality()
+			}
+			sets = append(sets, d)
+		}
+		rounds := rq.Rounds
+		if rounds <= 0 {
+			rounds = 50
+		}
+		seen := make([]map[string][]bool, len(sets))
+		for i := range seen {
+			seen[i] = map[string][]bool{}
+		}
+		for r := 0; r < rounds; r++ {
+			for k, d := range sets {
+				reps := 1
+				if k > 0 {
+					reps = 24
+				}
+				for j := 0; j < reps; j++ {
+					env := types.ProduceLabelledSessionTypeEnvironment(d)
+					var rs []bool
+					key := ""
+					for _, q := range rq.Queries {
+						v := types.EqualType(build(q[0]), build(q[1]), env)
+						rs = append(rs, v)
+						if v {
+							key += "1"
+						} else {
+							key += "0"
+						}
+					}
+					seen[k][key] = rs
+				}
+				runtime.GC()
+			}
+		}
+		var out [][][]bool
+		for k := range sets {
+			var vs [][]bool
+			for _, rs := range seen[k] {
+				vs = append(vs, rs)
+			}
+			out = append(out, vs)
+		}
+		resp["vectors"] = out
 	case "wfdefs":
 		// the pipeline of the parser (SetModalityTypeDef) + the typechecker's preliminary check, on structural definitions
 		defs := buildDefs(rq.Defs)
